@@ -41,6 +41,7 @@ WOVEN = os.path.join(BUILD, 'woven')
 KANI_TARGET = os.path.join(BUILD, 'kani-target')
 CONTRACTS = os.path.join(VERIF, 'contracts')
 JOBS = int(os.environ.get('VERIF_JOBS', '16'))
+MAX_REPLAY = int(os.environ.get('VERIF_MAX_REPLAY', '2'))
 MEM_LIMIT_KB = int(os.environ.get('VERIF_CBMC_MEM_GB', '10')) * 1024 * 1024
 TOTAL_MEM_LIMIT_KB = int(os.environ.get('VERIF_TOTAL_MEM_GB', '44')) * 1024 * 1024
 
@@ -395,6 +396,7 @@ def main():
     exit_code = 0
     replay_dir = os.path.join(OUT_ROOT, 'replay', prop)
     new_violations = 0
+    replayed_count = 0
     for h, descs in violations:
         os.makedirs(replay_dir, exist_ok=True)
         if isinstance(h, dict):     # verus obligation
@@ -408,7 +410,16 @@ def main():
         else:
             name = h.name
             rp = os.path.join(replay_dir, name + '.json')
-            info = replay_kani(h, descs, prop)
+            if replayed_count < MAX_REPLAY:
+                info = replay_kani(h, descs, prop)
+                replayed_count += 1
+            else:
+                # more than MAX_REPLAY refuted obligations in one run: the remaining ones are reported
+                # with the verifier's failed checks only (re-running each with concrete playback costs minutes)
+                info = {'property': prop, 'obligation': h.name, 'engine': 'kani/cbmc', 'contract': h.desc,
+                        'functions': h.fns, 'failed_checks': descs, 'harness': h.text, 'concrete_input': None,
+                        'replayed_on_real_code': False,
+                        'note': 'concrete playback skipped: %d other refuted obligation(s) of this run were replayed first (VERIF_MAX_REPLAY)' % MAX_REPLAY}
             json.dump(info, open(rp, 'w'), indent=1)
             replay_text = json.dumps(info)
             suffix = '' if info.get('replayed_on_real_code') else ' no-failing-input-found'
